@@ -8,6 +8,81 @@ import IcingaProofs.C05.Rel
 
 namespace Icinga.C05
 
+/-! ### Well-formed operation sequences and the invariant behind `start_once` -/
+
+/-- Well-formed operation sequence after time `T`: the clock does not run backwards and every check
+    result carries an execution end in `(0, now]`. -/
+def opOK : Op → Prop
+  | .result _ te now => 0 < te ∧ te ≤ now
+  | _ => True
+
+instance : DecidablePred opOK := fun op => by cases op <;> unfold opOK <;> infer_instance
+
+def WF : Int → List Op → Prop
+  | _, [] => True
+  | T, op :: ops => T ≤ op.now ∧ opOK op ∧ WF op.now ops
+
+instance : ∀ T ops, Decidable (WF T ops)
+  | _, [] => by unfold WF; infer_instance
+  | T, op :: ops => by unfold WF; exact @instDecidableAnd _ _ _ (@instDecidableAnd _ _ _ (instDecidableWF op.now ops))
+
+/-- State invariant behind `start_once` at the time bound `T`. -/
+def SInv (T : Int) (st : St) : Prop :=
+  0 < st.lastStateChange ∧ st.lastStateChange ≤ T ∧ AllC (IStart T) st.dts
+
+theorem sinv_step (T : Int) (st : St) (op : Op) (hi : SInv T st) (hT : T ≤ op.now)
+    (hop : opOK op) :
+    SInv op.now (step st op).1 := by
+  obtain ⟨hl0, hl1, hall⟩ := hi
+  have hall' : AllC (IStart op.now) st.dts := fun d hd => iStart_mono hT (hall d hd)
+  have hopT : OpT st (fun t => 0 < t ∧ t ≤ op.now) (IStart op.now) op := by
+    cases op with
+    | add p now =>
+      simp only [Op.now] at hT
+      refine ⟨?_, ?_⟩
+      · simp only [IStart, newDt, Op.now]; omega
+      · intro hc
+        have hw := canBeTriggered_window hc
+        simp only [newDt, Op.now] at hw ⊢
+        omega
+    | result s te now => exact hop
+    | pump now => trivial
+    | remove id u now => trivial
+  have hdts : AllC (IStart op.now) (step st op).1.dts := by
+    intro d' hd'
+    rcases step_pred st op (stepRel_RStart op.now) hall' hopT d' hd' with ⟨d, hd, r⟩ | ⟨p, hp, r⟩
+    · exact r (hall' d hd)
+    · apply r
+      simp only [IStart, newDt]; omega
+  cases op with
+  | add p now =>
+    refine ⟨?_, ?_, hdts⟩ <;> (simp only [step, addOp]; split <;> simp only [Op.now] at hT ⊢ <;> omega)
+  | result s te now =>
+    have hop' : 0 < te ∧ te ≤ now := hop
+    refine ⟨?_, ?_, hdts⟩ <;>
+      (simp only [step, resultOp]; split <;> simp only [Op.now] at hT ⊢ <;> (try split) <;> omega)
+  | pump now =>
+    refine ⟨?_, ?_, hdts⟩ <;> (simp only [step, pumpOp]; split <;> simp only [Op.now] at hT ⊢ <;> omega)
+  | remove id u now =>
+    refine ⟨?_, ?_, hdts⟩ <;>
+      (simp only [step, removeOp]; split <;> (try split) <;> simp only [Op.now] at hT ⊢ <;> omega)
+
+theorem sinv_run (ops : List Op) : ∀ (T : Int) (st : St), SInv T st → WF T ops →
+    ∃ T', SInv T' (run st ops) := by
+  induction ops with
+  | nil => intro T st hi _; exact ⟨T, hi⟩
+  | cons op ops ih =>
+    intro T st hi hw
+    obtain ⟨h1, h2, h3⟩ := hw
+    have := ih op.now (step st op).1 (sinv_step T st op hi h1 h2) h3
+    simpa [run] using this
+
+theorem can_of_fresh_flexible {now : Int} {d : Dt} (hf : d.fixed = false) (h0 : d.trigger = 0)
+    (h1 : d.start ≤ now) (h2 : now ≤ d.fin) : canBeTriggered now d = true := by
+  have h3 : ¬ now < d.start := by omega
+  have h4 : ¬ now > d.fin := by omega
+  simp [canBeTriggered, isExpired, isInEffect, isTriggered, hf, h0, h3, h4]
+
 /-! ### Ids -/
 
 def idsOf (l : List Dt) : List Nat := l.map (·.id)
@@ -456,11 +531,11 @@ theorem findDt_unique {l : List Dt} (h : (idsOf l).Nodup) {d : Dt} (hd : d ∈ l
     simp [live_not_removed hl]
 
 theorem parent_alive {sl : List SDt} {dl : List Dt} (hp : Pw V sl dl) (hnd : (idsOf dl).Nodup) (i : Nat) :
-    (match sl.find? (fun d => d.id == i) with | some q => q.alive | none => false) = (findDt dl i).isSome := by
+    parentAliveS sl i = (findDt dl i).isSome := by
+  unfold parentAliveS
   induction hp with
   | nil => rfl
-  | cons hv _ ih =>
-    rename_i sd d sl' dl'
+  | @cons sd d sl' dl' hv _ ih =>
     simp only [idsOf, List.map_cons, List.nodup_cons] at hnd
     by_cases hi : d.id = i
     · have hsi : sd.id = i := by rw [hv.1]; exact hi
@@ -590,12 +665,14 @@ theorem after_V (st : St) (op : Op) (hnd : (idsOf st.dts).Nodup) {sd : SDt} {d d
     V (SDt.after (stepObs st op).2 sd) d' := by
   obtain ⟨v1, v2, v3, v4, v5, v6, v7, v8, v9, v10, v11⟩ := v
   obtain ⟨r1, r2, r3, r4, r5, r6, r7, r8, r9, _, _, r12⟩ := r
-  have hs := evCount_pair st op hnd 1 (Or.inl rfl) hd hd' r1
-  have he := evCount_pair st op hnd 2 (Or.inr (Or.inl rfl)) hd hd' r1
+  have hs : evCount (stepObs st op).2 1 d.id = d'.starts - d.starts :=
+    evCount_pair st op hnd 1 (Or.inl rfl) hd hd' r1
+  have he : evCount (stepObs st op).2 2 d.id = d'.ends - d.ends :=
+    evCount_pair st op hnd 2 (Or.inr (Or.inl rfl)) hd hd' r1
   have ht := obsTrig_pair st op hnd hd' r1
-  simp only [cnt] at hs he
   simp only [SDt.after, v1, hs, he, ht]
-  refine ⟨r1.symm, by simp [*], by omega, by omega, by omega, by omega, by simp [*], ?_, ?_, ?_, ?_⟩
+  refine ⟨r1.symm, by simp [*], by (show sd.start = d'.start; omega), by (show sd.fin = d'.fin; omega),
+    by (show sd.duration = d'.duration; omega), by (show sd.trigBy = d'.trigBy; omega), by simp [*], ?_, ?_, ?_, ?_⟩
   · cases hr' : d'.removed with
     | true => simp
     | false =>
@@ -612,5 +689,556 @@ theorem after_V (st : St) (op : Op) (hnd : (idsOf st.dts).Nodup) {sd : SDt} {d d
     simp [hr', v8, this]
   · simp only [v10]; omega
   · simp only [v11]; omega
+
+theorem stepObs_fst (st : St) (op : Op) : (stepObs st op).1 = (step st op).1 := rfl
+theorem stepObs_rc (st : St) (op : Op) : (stepObs st op).2.rc = (step st op).2 := rfl
+
+/-- The downtimes the reader knows before the operation (plus the one just created) agree with the
+    ones the model works on. -/
+theorem pw_pre (sp : SpecSt) (st : St) (op : Op) (hp : Pw V sp.dts st.dts) (hnd : (idsOf st.dts).Nodup) :
+    Pw V (preDts sp op (stepObs st op).2) (preModel st op) := by
+  cases op with
+  | add p now =>
+    simp only [preDts, preModel, stepObs_rc, step, addOp]
+    by_cases hany : st.dts.any (fun d => d.id == p.id) = true
+    · simp [hany]; exact hp
+    · have hany' : st.dts.any (fun d => d.id == p.id) = false := by simpa using hany
+      simp only [hany', Bool.false_eq_true, if_false, beq_self_eq_true, if_true]
+      apply pw_append hp
+      have hpa := parent_alive hp hnd p.trigBy
+      refine ⟨rfl, rfl, rfl, rfl, rfl, ?_, rfl, rfl, fun _ => rfl, rfl, rfl⟩
+      simp only [newSDt, newDt]
+      rw [hpa]
+  | result s te now => exact hp
+  | pump now => exact hp
+  | remove id u now => exact hp
+
+/-- **Sync.**  After an operation of the model, the specification's bookkeeping computed from the model's
+    observation agrees with the new model state. -/
+theorem relS_step (sp : SpecSt) (st : St) (op : Op) (hrel : RelS sp st) (hnd : (idsOf st.dts).Nodup) :
+    RelS (specNext sp op (stepObs st op).2) (stepObs st op).1 := by
+  obtain ⟨h1, h2, h3, h4, h5, h6, h7⟩ := hrel
+  have hdts : Pw V ((preDts sp op (stepObs st op).2).map (SDt.after (stepObs st op).2)) (step st op).1.dts := by
+    apply pw_chain _ _ _ _ (pw_pre sp st op h7 hnd) (pw_step st op (stepRel_RM op.now) (fun a b r => r.1) hnd)
+    intro sd d d' _ hd hd' v r
+    exact after_V st op hnd hd hd' v r
+  rw [stepObs_fst]
+  cases op with
+  | add p now =>
+    refine ⟨?_, ?_, ?_, ?_, ?_, ?_, hdts⟩ <;> simp only [specNext, step, addOp] <;> split <;> assumption
+  | result s te now =>
+    by_cases hs : stale st te now = true
+    · have hrc : (stepObs st (.result s te now)).2.rc = 0 := by simp [stepObs_rc, step, resultOp, hs]
+      have hst : (step st (.result s te now)).1 = st := by simp [step, resultOp, hs]
+      rw [hst] at hdts ⊢
+      simp only [specNext, hrc]
+      exact ⟨h1, h2, h3, h4, h5, h6, hdts⟩
+    · have hs' : stale st te now = false := by simpa using hs
+      have hrc : (stepObs st (.result s te now)).2.rc = 1 := by simp [stepObs_rc, step, resultOp, hs']
+      simp only [specNext, hrc, beq_self_eq_true, if_true]
+      refine ⟨?_, ?_, ?_, ?_, ?_, ?_, hdts⟩
+      · simpa [step, resultOp, hs'] using h1
+      · simp [step, resultOp, hs']
+      · intro _; simp [step, resultOp, hs']
+      · intro h; simp at h
+      · simp only [step, resultOp, hs', Bool.false_eq_true, if_false, stateChangeSpec, h1, h5]
+        cases hc : sp.checked with
+        | true => simp [h3 hc]
+        | false => simp [h4 hc]
+      · simpa [step, resultOp, hs'] using h6
+  | pump now =>
+    refine ⟨?_, ?_, ?_, ?_, ?_, ?_, hdts⟩ <;> simp only [specNext, step, pumpOp, h6] <;> split <;>
+      first | assumption | rfl
+  | remove id u now =>
+    refine ⟨?_, ?_, ?_, ?_, ?_, ?_, hdts⟩ <;> simp only [specNext, step, removeOp] <;> split <;>
+      (try split) <;> assumption
+
+/-! ### The clauses on the model's own trace -/
+
+/-- `OnDowntimeTriggered` fires only inside the window. -/
+def RWin (now : Int) (d d' : Dt) : Prop :=
+  d'.start = d.start ∧ d'.fin = d.fin ∧ d.trigEv ≤ d'.trigEv ∧ (d.trigEv < d'.trigEv → d.start ≤ now ∧ now ≤ d.fin)
+
+theorem stepRel_RWin (now : Int) : StepRel now (fun _ => True) (fun _ => True) (RWin now) where
+  refl := fun d => ⟨rfl, rfl, Nat.le_refl _, fun h => absurd h (Nat.lt_irrefl _)⟩
+  trans := by
+    intro a b c ⟨h1, h2, h3, h4⟩ ⟨g1, g2, g3, g4⟩
+    refine ⟨by omega, by omega, by omega, ?_⟩
+    intro hlt
+    by_cases hab : a.trigEv < b.trigEv
+    · exact h4 hab
+    · have := g4 (by omega); omega
+  ctx := fun _ _ _ _ => trivial
+  trig := by
+    intro t d _ _ hc _
+    have hw := canBeTriggered_window hc
+    exact ⟨rfl, rfl, by simp [trigSelf, noteTriggered, markTriggered], fun _ => ⟨hw.1, hw.2.1⟩⟩
+  startT := fun _ _ _ _ _ => trivial
+  start := by
+    intro d _ _ hc _
+    have hw := canBeTriggered_window hc
+    exact ⟨rfl, rfl, by simp [startSelf, trigSelf, noteTriggered, markTriggered, noteStarted], fun _ => ⟨hw.1, hw.2.1⟩⟩
+  remove := fun d _ _ => ⟨rfl, rfl, Nat.le_refl _, fun h => absurd h (Nat.lt_irrefl _)⟩
+  setup := fun d _ _ => ⟨rfl, rfl, Nat.le_refl _, fun h => absurd h (Nat.lt_irrefl _)⟩
+  addTrig := by
+    intro c d _ _
+    unfold addTrigger
+    split <;> exact ⟨rfl, rfl, Nat.le_refl _, fun h => absurd h (Nat.lt_irrefl _)⟩
+  disarm := fun d _ _ => ⟨rfl, rfl, Nat.le_refl _, fun h => absurd h (Nat.lt_irrefl _)⟩
+
+/-- Removal and the DowntimeEnd request across an operation at `now`. -/
+def REv (now : Int) (d d' : Dt) : Prop :=
+  (d.removed = true → d' = d) ∧ d.trigEv ≤ d'.trigEv ∧ d.ends ≤ d'.ends ∧
+  (d.trigger ≠ 0 → d'.trigger = d.trigger) ∧
+  d'.remEv = d.remEv + (if d.removed = false ∧ d'.removed = true then 1 else 0) ∧
+  (d'.ends ≠ d.ends → d.removed = false ∧ d'.removed = true) ∧
+  (d.removed = false → d'.removed = true → 0 < d.trigger → d.trigger ≤ now → d'.ends = d.ends + 1) ∧
+  (d.trigger = 0 → d'.trigEv = d.trigEv → d'.trigger = 0 ∧ d'.ends = d.ends)
+
+theorem rev_live_same {now : Int} {d d' : Dt} (hr : d.removed = false) (hr' : d'.removed = false)
+    (h1 : d.trigEv ≤ d'.trigEv) (h2 : d'.ends = d.ends) (h3 : d.trigger ≠ 0 → d'.trigger = d.trigger)
+    (h4 : d'.remEv = d.remEv) (h5 : d.trigger = 0 → d'.trigEv = d.trigEv → d'.trigger = 0) : REv now d d' := by
+  refine ⟨(fun h => by rw [hr] at h; cases h), h1, by omega, h3, ?_, fun h => absurd h2 h, ?_, ?_⟩
+  · simp [hr', h4]
+  · intro _ h; rw [hr'] at h; cases h
+  · intro h0 he; exact ⟨h5 h0 he, h2⟩
+
+theorem stepRel_REv (now : Int) : StepRel now (fun _ => True) (fun _ => True) (REv now) where
+  refl := by
+    intro d
+    refine ⟨fun _ => rfl, Nat.le_refl _, Nat.le_refl _, fun _ => rfl, ?_, fun h => absurd rfl h, ?_, fun h _ => ⟨h, rfl⟩⟩
+    · cases d.removed <;> simp
+    · intro h1 h2; rw [h1] at h2; cases h2
+  trans := by
+    intro a b c ⟨h1, h2, h3, h4, h5, h6, h7, h8⟩ ⟨g1, g2, g3, g4, g5, g6, g7, g8⟩
+    have hfrozen : a.removed = true → c = a := by
+      intro ha; have hb := h1 ha; subst hb; exact g1 ha
+    refine ⟨hfrozen, by omega, by omega, ?_, ?_, ?_, ?_, ?_⟩
+    · intro ha
+      have hb := h4 ha
+      rw [g4 (by rw [hb]; exact ha), hb]
+    · cases ha : a.removed with
+      | true =>
+        have := hfrozen ha; subst this; simp [ha]
+      | false =>
+        cases hb : b.removed with
+        | true =>
+          have hc := g1 hb; subst hc
+          simp [ha, hb] at h5 ⊢; exact h5
+        | false =>
+          simp [ha, hb] at h5 g5 ⊢
+          rw [g5, h5]
+    · intro hne
+      by_cases hab : b.ends = a.ends
+      · have hcb : c.ends ≠ b.ends := by rw [hab]; exact hne
+        obtain ⟨hb, hc⟩ := g6 hcb
+        refine ⟨?_, hc⟩
+        cases ha : a.removed with
+        | false => rfl
+        | true => have := h1 ha; subst this; rw [ha] at hb; cases hb
+      · obtain ⟨ha, hb⟩ := h6 hab
+        have hc := g1 hb; subst hc
+        exact ⟨ha, hb⟩
+    · intro ha hc hpos hle
+      cases hb : b.removed with
+      | true =>
+        have := g1 hb; subst this
+        exact h7 ha hb hpos hle
+      | false =>
+        have hbt : b.trigger = a.trigger := h4 (by omega)
+        have hbe : b.ends = a.ends := by
+          by_cases hab : b.ends = a.ends
+          · exact hab
+          · have := (h6 hab).2; rw [hb] at this; cases this
+        rw [g7 hb hc (by omega) (by omega), hbe]
+    · intro h0 he
+      have hbe : b.trigEv = a.trigEv := by omega
+      obtain ⟨hb0, hbends⟩ := h8 h0 hbe
+      obtain ⟨hc0, hcends⟩ := g8 hb0 (by omega)
+      exact ⟨hc0, by omega⟩
+  ctx := fun _ _ _ _ => trivial
+  trig := by
+    intro t d _ _ _ hr
+    apply rev_live_same hr <;> simp [trigSelf, noteTriggered, markTriggered, hr]
+    · intro h; simp [h]
+  startT := fun _ _ _ _ _ => trivial
+  start := by
+    intro d _ _ _ hr
+    apply rev_live_same hr <;> simp [startSelf, trigSelf, noteTriggered, markTriggered, noteStarted, hr]
+    · intro h; simp [h]
+  remove := by
+    intro d _ hr
+    refine ⟨(fun h => by rw [hr] at h; cases h), Nat.le_refl _, ?_, fun _ => rfl, ?_, ?_, ?_, ?_⟩
+    · simp only [removeDt]; split <;> omega
+    · simp [removeDt, hr]
+    · intro _; exact ⟨hr, rfl⟩
+    · intro _ _ h1 h2
+      simp [removeDt, isTriggered, h1, h2]
+    · intro h0 _
+      refine ⟨h0, ?_⟩
+      simp [removeDt, isTriggered, h0]
+  setup := by intro d _ hr; apply rev_live_same hr <;> simp [setupCleanup, hr]
+  addTrig := by
+    intro c d _ hr
+    unfold addTrigger
+    split
+    · apply rev_live_same hr <;> simp [hr]
+    · apply rev_live_same hr <;> simp [hr]
+  disarm := by intro d _ hr; apply rev_live_same hr <;> simp [hr]
+
+/-- Everything the clause proofs need to know about one downtime across the operation. -/
+def RAll (now : Int) (d d' : Dt) : Prop := RM d d' ∧ RTrig now d d' ∧ RWin now d d' ∧ REv now d d'
+
+theorem stepRel_RAll (now : Int) : StepRel now (fun _ => True) (fun _ => True) (RAll now) :=
+  stepRel_and (stepRel_RM now) (stepRel_and (stepRel_RTrig now) (stepRel_and (stepRel_RWin now) (stepRel_REv now)))
+
+theorem inEffect_V {now : Int} {sd : SDt} {d : Dt} (v : V sd d) :
+    (sd.alive && sd.inEffect now) = (!d.removed && isInEffect now d) := by
+  obtain ⟨_, v2, v3, v4, v5, _, _, v8, v9, _, _⟩ := v
+  rw [v8]
+  cases hr : d.removed with
+  | true => rfl
+  | false =>
+    have ht := v9 hr
+    simp only [SDt.inEffect, isInEffect, v2, v3, v4, v5, ht, Bool.not_false, Bool.true_and]
+    cases d.fixed <;> by_cases h0 : d.trigger = 0 <;> simp [h0]
+
+theorem any_pw {now : Int} {l : List SDt} {nl : List Dt} (h : Pw V l nl) :
+    l.any (fun d => d.alive && d.inEffect now) = nl.any (fun d => !d.removed && isInEffect now d) := by
+  induction h with
+  | nil => rfl
+  | cons hv _ ih => simp only [List.any_cons, inEffect_V hv, ih]
+
+theorem filter_len_pw {now : Int} {l : List SDt} {nl : List Dt} (h : Pw V l nl) :
+    (l.filter (fun d => d.alive && d.inEffect now)).length =
+      (nl.filter (fun d => !d.removed && isInEffect now d)).length := by
+  induction h with
+  | nil => rfl
+  | cons hv _ ih =>
+    simp only [List.filter_cons, inEffect_V hv]
+    split <;> simp [ih]
+
+theorem zip_map_all {α : Type} (f : α → α) (g : α × α → Bool) (l : List α) :
+    (l.zip (l.map f)).all g = l.all (fun a => g (a, f a)) := by
+  induction l with
+  | nil => rfl
+  | cons a l ih => simp only [List.map_cons, List.zip_cons_cons, List.all_cons, ih]
+
+theorem all_pw {P : SDt → Bool} {l : List SDt} {nl : List Dt} (h : Pw V l nl)
+    (hp : ∀ sd d, d ∈ nl → V sd d → P sd = true) : l.all P = true := by
+  induction h with
+  | nil => rfl
+  | cons hv _ ih =>
+    simp only [List.all_cons, Bool.and_eq_true]
+    exact ⟨hp _ _ List.mem_cons_self hv, ih (fun sd d hd v => hp sd d (List.mem_cons_of_mem _ hd) v)⟩
+
+/-- Every downtime of the state has caused at most one DowntimeStart request. -/
+def SInv' (_T : Int) (st : St) : Prop := ∀ d ∈ st.dts, d.starts ≤ 1
+
+section
+variable (sp : SpecSt) (st : St) (op : Op) (hrel : RelS sp st) (hnd : (idsOf st.dts).Nodup)
+include hrel hnd
+
+theorem post_pw : Pw V (postDts sp op (stepObs st op).2) (step st op).1.dts := by
+  unfold postDts
+  apply pw_chain _ _ _ _ (pw_pre sp st op hrel.2.2.2.2.2.2 hnd)
+    (pw_step st op (stepRel_RM op.now) (fun a b r => r.1) hnd)
+  intro sd d d' _ hd hd' v r
+  exact after_V st op hnd hd hd' v r
+
+theorem chkInDt_model : chkInDt sp op (stepObs st op).2 = true := by
+  simp only [chkInDt, beq_iff_eq]
+  rw [any_pw (post_pw sp st op hrel hnd)]
+  rfl
+
+theorem chkDepth_model : chkDepth sp op (stepObs st op).2 = true := by
+  simp only [chkDepth, beq_iff_eq]
+  rw [filter_len_pw (post_pw sp st op hrel hnd)]
+  rfl
+
+omit hrel in
+/-- Facts about one known downtime `sd`, its model counterpart `d` before and `d'` after the operation. -/
+theorem triple_facts {sd : SDt} {d d' : Dt} (hd : d ∈ preModel st op) (hd' : d' ∈ (step st op).1.dts)
+    (v : V sd d) (r : RAll op.now d d') :
+    V (SDt.after (stepObs st op).2 sd) d' ∧ (d'.removed = false → d.removed = false) := by
+  refine ⟨after_V st op hnd hd hd' v r.1, ?_⟩
+  intro hr'
+  cases hr : d.removed with
+  | false => rfl
+  | true => rw [r.1.2.2.2.2.2.2.2.2.2.2.2 hr] at hr'; rw [hr] at hr'; cases hr'
+
+theorem chkWriteOnce_model : chkWriteOnce sp op (stepObs st op).2 = true := by
+  simp only [chkWriteOnce, postDts]
+  rw [zip_map_all]
+  apply all_chain _ _ _ _ (pw_pre sp st op hrel.2.2.2.2.2.2 hnd)
+    (pw_step st op (stepRel_RAll op.now) (fun a b r => r.1.1) hnd)
+  intro sd d d' _ hd hd' v r
+  obtain ⟨va, hlive⟩ := triple_facts st op hnd hd hd' v r
+  simp only [Bool.or_eq_true, Bool.not_eq_true', Bool.and_eq_false_iff, bne_eq_false_iff_eq, beq_iff_eq]
+  cases hr' : d'.removed with
+  | true => left; left; rw [va.2.2.2.2.2.2.2.1, hr']; rfl
+  | false =>
+    have hr := hlive hr'
+    by_cases h0 : sd.trig = 0
+    · left; right; exact h0
+    · right
+      rw [va.2.2.2.2.2.2.2.2.1 hr', v.2.2.2.2.2.2.2.2.1 hr]
+      exact r.2.1.2.2.2.2.2.1 (by rw [← v.2.2.2.2.2.2.2.2.1 hr]; exact h0)
+
+theorem chkWindow_model : chkWindow sp op (stepObs st op).2 = true := by
+  simp only [chkWindow, postDts]
+  rw [zip_map_all]
+  apply all_chain _ _ _ _ (pw_pre sp st op hrel.2.2.2.2.2.2 hnd)
+    (pw_step st op (stepRel_RAll op.now) (fun a b r => r.1.1) hnd)
+  intro sd d d' _ hd hd' v r
+  obtain ⟨va, hlive⟩ := triple_facts st op hnd hd hd' v r
+  simp only [Bool.or_eq_true, Bool.not_eq_true', Bool.and_eq_false_iff, bne_eq_false_iff_eq, beq_eq_false_iff_ne]
+  cases hr' : d'.removed with
+  | true => left; left; left; rw [va.2.2.2.2.2.2.2.1, hr']; rfl
+  | false =>
+    have hr := hlive hr'
+    by_cases h0 : sd.trig = 0
+    · by_cases h1 : (SDt.after (stepObs st op).2 sd).trig = 0
+      · left; right; exact h1
+      · right
+        have hw := r.2.1.2.2.2.2.2.2 (by rw [← v.2.2.2.2.2.2.2.2.1 hr]; exact h0)
+          (by rw [← va.2.2.2.2.2.2.2.2.1 hr']; exact h1)
+        simp only [SDt.inWindow, Bool.and_eq_true, decide_eq_true_eq]
+        rw [va.2.2.1, va.2.2.2.1, r.1.2.2.1, r.1.2.2.2.1]
+        exact ⟨hw.1, hw.2.1⟩
+    · left; left; right; exact h0
+
+theorem chkWindowGone_model : chkWindowGone sp op (stepObs st op).2 = true := by
+  simp only [chkWindowGone, postDts]
+  rw [zip_map_all]
+  apply all_chain _ _ _ _ (pw_pre sp st op hrel.2.2.2.2.2.2 hnd)
+    (pw_step st op (stepRel_RAll op.now) (fun a b r => r.1.1) hnd)
+  intro sd d d' _ hd hd' v r
+  have h3 : evCount (stepObs st op).2 3 d.id = d'.trigEv - d.trigEv :=
+    evCount_pair st op hnd 3 (Or.inr (Or.inr (Or.inl rfl))) hd hd' r.1.1
+  simp only [Bool.or_eq_true, Bool.not_eq_true', Bool.and_eq_false_iff, decide_eq_false_iff_not]
+  by_cases hlt : d.trigEv < d'.trigEv
+  · right
+    have hw := r.2.2.1.2.2.2 hlt
+    simp only [SDt.inWindow, Bool.and_eq_true, decide_eq_true_eq]
+    rw [v.2.2.1, v.2.2.2.1]
+    exact hw
+  · left; right
+    rw [v.1, h3]; omega
+
+theorem gone_pair {sd : SDt} {d d' : Dt} (hd' : d' ∈ (step st op).1.dts) (v : V sd d) (hid : d'.id = d.id) :
+    gone (stepObs st op).2 sd = (!d.removed && d'.removed) := by
+  simp only [gone, v.1, obsTrig_pair st op hnd hd' hid, v.2.2.2.2.2.2.2.1]
+  cases d'.removed <;> simp
+
+theorem chkRemovedEvent_model : chkRemovedEvent sp op (stepObs st op).2 = true := by
+  simp only [chkRemovedEvent]
+  apply all_chain _ _ _ _ (pw_pre sp st op hrel.2.2.2.2.2.2 hnd)
+    (pw_step st op (stepRel_RAll op.now) (fun a b r => r.1.1) hnd)
+  intro sd d d' _ hd hd' v r
+  have h4 : evCount (stepObs st op).2 4 d.id = d'.remEv - d.remEv :=
+    evCount_pair st op hnd 4 (Or.inr (Or.inr (Or.inr rfl))) hd hd' r.1.1
+  have hg := gone_pair sp st op hrel hnd hd' v r.1.1
+  have h5 := r.2.2.2.2.2.2.2.1
+  simp only [beq_iff_eq, hg]
+  rw [v.1, h4, h5]
+  cases d.removed <;> cases d'.removed <;> simp
+
+theorem chkEndOnce_model (hpe : ∀ d ∈ (step st op).1.dts, d.ends ≤ 1) :
+    chkEndOnce sp op (stepObs st op).2 = true := by
+  simp only [chkEndOnce, postDts]
+  rw [zip_map_all]
+  apply all_chain _ _ _ _ (pw_pre sp st op hrel.2.2.2.2.2.2 hnd)
+    (pw_step st op (stepRel_RAll op.now) (fun a b r => r.1.1) hnd)
+  intro sd d d' _ hd hd' v r
+  obtain ⟨va, hlive⟩ := triple_facts st op hnd hd hd' v r
+  have h2 : evCount (stepObs st op).2 2 d.id = d'.ends - d.ends :=
+    evCount_pair st op hnd 2 (Or.inr (Or.inl rfl)) hd hd' r.1.1
+  have h3 : evCount (stepObs st op).2 3 d.id = d'.trigEv - d.trigEv :=
+    evCount_pair st op hnd 3 (Or.inr (Or.inr (Or.inl rfl))) hd hd' r.1.1
+  have hg := gone_pair sp st op hrel hnd hd' v r.1.1
+  obtain ⟨_, e2, e3, _, _, e6, e7, e8⟩ := r.2.2.2
+  simp only [Bool.and_eq_true, decide_eq_true_eq, Bool.or_eq_true, beq_iff_eq, Bool.not_eq_true',
+    Bool.and_eq_false_iff, decide_eq_false_iff_not, hg, v.1, h2, h3]
+  refine ⟨⟨⟨?_, ?_⟩, ?_⟩, ?_⟩
+  · rw [va.2.2.2.2.2.2.2.2.2.2]; exact hpe d' hd'
+  · by_cases he : d'.ends = d.ends
+    · left; omega
+    · right
+      obtain ⟨a, b⟩ := e6 he
+      simp [a, b]
+  · cases hr : d.removed with
+    | true => left; left; simp
+    | false =>
+      cases hr' : d'.removed with
+      | false => left; left; simp
+      | true =>
+        have hst : sd.trig = d.trigger := v.2.2.2.2.2.2.2.2.1 hr
+        by_cases hp : 0 < d.trigger
+        · by_cases hl : d.trigger ≤ op.now
+          · right
+            have := e7 hr hr' hp hl; omega
+          · left; right; rw [hst]; exact hl
+        · left; left; right; rw [hst]; exact hp
+  · cases hr : d.removed with
+    | true => left; left; simp
+    | false =>
+      cases hr' : d'.removed with
+      | false => left; left; simp
+      | true =>
+        have hst : sd.trig = d.trigger := v.2.2.2.2.2.2.2.2.1 hr
+        by_cases h0 : d.trigger = 0
+        · by_cases hev : d'.trigEv = d.trigEv
+          · right
+            have := (e8 h0 hev).2; omega
+          · left; right
+            have : ¬ (d'.trigEv - d.trigEv = 0) := by omega
+            simpa using this
+        · left; left; right; rw [hst]; simpa using h0
+
+omit hrel hnd in
+theorem evsOf_self {l : List Dt} (h : (idsOf l).Nodup) {d : Dt} (hd : d ∈ l) : evsOf l d = [] := by
+  unfold evsOf
+  cases hf : l.find? (fun x => x.id == d.id) with
+  | none =>
+    have := List.find?_eq_none.mp hf d hd
+    simp at this
+  | some y =>
+    have hy := List.mem_of_find?_eq_some hf
+    have hyid : y.id = d.id := by have := List.find?_some hf; simpa using this
+    have : y = d := eq_of_id h hy hd hyid
+    subst this
+    simp
+
+theorem chkDropped_model : chkDropped sp op (stepObs st op).2 = true := by
+  simp only [chkDropped]
+  cases op with
+  | result s te now =>
+    by_cases hs : stale st te now = true
+    · have hst : (step st (.result s te now)) = (st, 0) := by simp [step, resultOp, hs]
+      have hevs : (stepObs st (.result s te now)).2.evs = [] := by
+        simp only [stepObs, obsOf, hst]
+        apply List.flatten_eq_nil_iff.mpr
+        intro l hl
+        obtain ⟨d, hd, rfl⟩ := List.mem_map.mp hl
+        exact evsOf_self hnd hd
+      simp only [dropped, stepObs_rc, hst, beq_self_eq_true, Bool.not_true, Bool.false_or, hevs,
+        List.isEmpty_nil, Bool.true_and, preDts]
+      apply all_pw hrel.2.2.2.2.2.2
+      intro sd d hd v
+      simp only [Bool.or_eq_true, Bool.not_eq_true', beq_iff_eq]
+      cases hr : d.removed with
+      | true => left; rw [v.2.2.2.2.2.2.2.1, hr]; rfl
+      | false =>
+        right
+        simp only [stepObs, hst]
+        rw [obsTrig_obsOf, v.1, findDt_unique hnd hd, v.2.2.2.2.2.2.2.2.1 hr]
+        simp [hr]
+    · have hs' : stale st te now = false := by simpa using hs
+      simp [dropped, stepObs_rc, step, resultOp, hs']
+  | add p now => simp [dropped]
+  | pump now => simp [dropped]
+  | remove id u now => simp [dropped]
+
+omit hrel hnd in
+theorem find_alive_pw {sl : List SDt} {dl : List Dt} (h : Pw V sl dl) (i : Nat) :
+    (sl.find? (fun d => d.id == i && d.alive) = none ∧ findDt dl i = none) ∨
+    (∃ sd d, sl.find? (fun d => d.id == i && d.alive) = some sd ∧ findDt dl i = some d ∧ V sd d) := by
+  induction h with
+  | nil => left; exact ⟨rfl, rfl⟩
+  | @cons sd d sl' dl' hv _ ih =>
+    have hb : (sd.id == i && sd.alive) = live i d := by
+      simp only [live, hv.1, hv.2.2.2.2.2.2.2.1]
+    cases hl : live i d with
+    | true =>
+      right
+      exact ⟨sd, d, by simp [List.find?_cons, hb, hl], by simp [findDt, List.find?_cons, hl], hv⟩
+    | false =>
+      rcases ih with ⟨h1, h2⟩ | ⟨sd', d', h1, h2, h3⟩
+      · left
+        refine ⟨by simp [List.find?_cons, hb, hl, h1], ?_⟩
+        unfold findDt at h2 ⊢
+        simp [List.find?_cons, hl, h2]
+      · right
+        refine ⟨sd', d', by simp [List.find?_cons, hb, hl, h1], ?_, h3⟩
+        unfold findDt at h2 ⊢
+        simp [List.find?_cons, hl, h2]
+
+theorem chkOwner_model : chkOwner sp op (stepObs st op).2 = true := by
+  cases op with
+  | remove id u now =>
+    simp only [chkOwner, preDts]
+    rcases find_alive_pw hrel.2.2.2.2.2.2 id with ⟨h1, h2⟩ | ⟨sd, d, h1, h2, v⟩
+    · rw [h1]
+      simp [stepObs_rc, step, removeOp, h2]
+    · rw [h1]
+      simp only
+      by_cases ho : (d.owner && u) = true
+      · have hst : step st (.remove id u now) = (st, 2) := by simp [step, removeOp, h2, ho]
+        simp only [stepObs_rc, hst, v.2.2.2.2.2.2.1, ho, stepObs]
+        rw [obsTrig_obsOf, h2]
+        simp [obsOf]
+      · have ho' : (d.owner && u) = false := by simpa using ho
+        have hrc : (step st (.remove id u now)).2 = 1 := by simp [step, removeOp, h2, ho']
+        simp [stepObs_rc, hrc, v.2.2.2.2.2.2.1, ho']
+  | add p now => rfl
+  | result s te now => rfl
+  | pump now => rfl
+
+theorem chkStartOnce_model (T : Int) (hs : SInv' T (step st op).1) : chkStartOnce sp op (stepObs st op).2 = true := by
+  simp only [chkStartOnce]
+  apply all_pw (post_pw sp st op hrel hnd)
+  intro sd d hd v
+  have := (hs d hd)
+  simp only [decide_eq_true_eq]
+  rw [v.2.2.2.2.2.2.2.2.2.1]
+  exact this
+
+end
+
+/-- The DowntimeEnd invariant is kept by every operation. -/
+theorem pend_step (st : St) (op : Op) (h0 : ∀ d ∈ st.dts, PEnd d) : ∀ d ∈ (step st op).1.dts, PEnd d := by
+  intro d' hd'
+  rcases step_pred st op (stepRel_REnd op.now) (allc_trivial _) (opT_trivial st op) d' hd' with ⟨d, hd, r⟩ | ⟨p, _, r⟩
+  · have pd := h0 d hd
+    cases hr : d.removed with
+    | true => rw [r.1 hr]; exact pd
+    | false => exact r.2 hr (pd.2 hr)
+  · exact r.2 rfl rfl
+
+/-! ### The enabled clauses, one step and the induction over the trace -/
+
+/-- The clauses of the specification that are proved of every trace of the model so far.  Not yet
+    enabled: `existence`, `flexible_trigger`, `trigger_cascade`, `fixed_started_in_window`,
+    `expired_removed` (their content is proved at the level of the model's functions above, not yet
+    through the specification's bookkeeping), and `started_when_triggered` / `end_has_start`, which are false of the code (F-C05c). -/
+def coreMask : Clause → Bool
+  | .droppedResult | .inDowntimeIff | .depthEqCount | .triggerWriteOnce | .triggerOnlyInWindow | .startOnce
+  | .endOnce | .removedEvent | .ownerProtected => true
+  | _ => false
+
+theorem specStep_core (sp : SpecSt) (st : St) (op : Op) (hrel : RelS sp st) (hnd : (idsOf st.dts).Nodup)
+    (T : Int) (hs : SInv T (step st op).1) (hpe : ∀ d ∈ (step st op).1.dts, PEnd d) :
+    specStepM coreMask sp op (stepObs st op).2 = none := by
+  have hs' : SInv' T (step st op).1 := fun d hd => (hs.2.2 d hd).2.2.2.2.1
+  simp only [specStepM, specChecks, firstFailM, coreMask, chkInDt_model sp st op hrel hnd,
+    chkDropped_model sp st op hrel hnd, chkRemovedEvent_model sp st op hrel hnd, chkOwner_model sp st op hrel hnd,
+    chkEndOnce_model sp st op hrel hnd (fun d hd => (hpe d hd).1),
+    chkDepth_model sp st op hrel hnd, chkWriteOnce_model sp st op hrel hnd, chkWindow_model sp st op hrel hnd,
+    chkWindowGone_model sp st op hrel hnd, chkStartOnce_model sp st op hrel hnd T hs']
+  simp
+
+theorem trace_core (ops : List Op) : ∀ (sp : SpecSt) (st : St) (T : Int), RelS sp st → (idsOf st.dts).Nodup →
+    SInv T st → (∀ d ∈ st.dts, PEnd d) → WF T ops → specTraceM coreMask sp (trace st ops) = none := by
+  induction ops with
+  | nil => intro _ _ _ _ _ _ _ _; rfl
+  | cons op ops ih =>
+    intro sp st T hrel hnd hs hpe hw
+    obtain ⟨h1, h2, h3⟩ := hw
+    have hs' := sinv_step T st op hs h1 h2
+    have hpe' := pend_step st op hpe
+    simp only [trace, specTraceM]
+    rw [specStep_core sp st op hrel hnd op.now hs' hpe']
+    exact ih _ _ op.now (relS_step sp st op hrel hnd) (nodup_step st op hnd) hs' hpe' h3
 
 end Icinga.C05
